@@ -17,3 +17,9 @@ package eventnotifier
 //@   ensures sincelock (forall ch chan<- eventmon.EventV0 :: old(hasKey(n.transmitChannels, ch)) ==> hasKey(n.transmitChannels, ch))   #C20.publishing-keeps-every-subscriber @C20
 //@ func (*EventNotifier).publishCert
 //@   ensures sincelock (forall ch chan<- eventmon.EventV0 :: old(hasKey(n.transmitChannels, ch)) ==> hasKey(n.transmitChannels, ch))   #C20.publishing-certificates-keeps-every-subscriber @C20
+// ... and every subscriber in the table is offered each event: the fan-out loops run to the end of the table (a full
+// buffer skips that subscriber only - the select has a default arm - and never ends the loop)
+//@ func (*EventNotifier).transmitEvent
+//@   loop 1 exhaustive   #C20.every-subscriber-is-offered-the-event @C20
+//@ func (*EventNotifier).publishCert
+//@   loop 1 exhaustive   #C20.every-subscriber-is-offered-the-certificate @C20
